@@ -2,7 +2,6 @@ package main
 
 import (
 	"fmt"
-	"go/types"
 
 	"golang.org/x/tools/go/ssa"
 )
@@ -98,6 +97,22 @@ func (w *Worker) rtIntrinsic(name string, args []Val) (Val, bool) {
 	case "vRandConcrete":
 		w.randConcrete = args[0].(*Term).isTrue()
 		return nil, true
+	case "vYield":
+		w.yield("vYield")
+		return nil, true
+	case "vWait":
+		f := args[0].(*Closure)
+		w.blockUntil("vWait", func() bool {
+			r := w.callFunction(f.Fn, nil, f.Bind)
+			t, ok := r.(*Term)
+			if !ok || !t.IsConst() {
+				panic(engineError{"vWait predicate must be concrete"})
+			}
+			return t.isTrue()
+		})
+		return nil, true
+	case "vThreads":
+		return ts.Const(64, uint64(w.aliveThreads())), true
 	case "vTier":
 		return ts.Const(64, uint64(tierVal)), true
 	case "vSymbolic":
@@ -144,33 +159,6 @@ func (w *Worker) expectPanic(f *Closure) (panicked bool) {
 	}()
 	w.callFunction(f.Fn, nil, f.Bind)
 	return false
-}
-
-// ---- not yet supported: goroutines and channels (C20) ----
-
-type ChanVal struct {
-	id     int
-	buf    []Val
-	cap    int
-	closed bool
-}
-
-type scheduler struct{}
-
-func (w *Worker) goStmt(fr *Frame, x *ssa.Go) {
-	panic(engineError{"go statement not supported"})
-}
-func (w *Worker) chanSend(ch, v Val) { panic(engineError{"channel send not supported"}) }
-func (w *Worker) chanRecv(ch Val, commaOk bool, t types.Type) Val {
-	panic(engineError{"channel receive not supported"})
-}
-func (w *Worker) chanClose(ch Val) { panic(engineError{"channel close not supported"}) }
-func (w *Worker) makeChan(x *ssa.MakeChan, size Val) Val {
-	w.chanCnt++
-	return &ChanVal{id: w.chanCnt, cap: int(size.(*Term).C)}
-}
-func (w *Worker) selectStmt(fr *Frame, x *ssa.Select) Val {
-	panic(engineError{"select not supported"})
 }
 
 func (w *Worker) timeIntrinsic(full string, fn *ssa.Function, args []Val) (Val, bool) {
